@@ -98,6 +98,9 @@ func I64(name string) int64  { return int64(scalar(name)) }
 func Int(name string) int    { return int(scalar(name)) }
 func Bool(name string) bool  { return scalar(name) != 0 }
 
+// Range64 returns an arbitrary value in [0, hi] (the engine records the interval). (intercepted)
+func Range64(name string, hi uint64) uint64 { return scalar(name) }
+
 // Len returns a value in [lo,hi]; the engine forks over all of them without the solver. (intercepted)
 func Len(name string, lo, hi int) int {
 	load()
